@@ -68,6 +68,8 @@ func C07(c *Ctx) {
 	c07RuleVisit(c, g)
 	c07Wiring(c, g)
 	c07Errors(c, g)
+	r.Rule("C07-g", "the first-invocation graph is read-only for its consumers (see C08-f): a component search or leader search that prunes the shared graph hides the self-loops and cycles of the components handled later from the detection")
+	firstGraphReadOnly(c, "C07-g")
 }
 
 func recvName(fd *ast.FuncDecl) string {
